@@ -94,7 +94,7 @@ func init() {
 			return scUnits(1, "write3", "write3-slowfsm", "write3-pipe", "crash3", "crash3-slowfsm", "transfer", "transfer-pipe", "majority-restart")
 		},
 		func() []Unit {
-			return scUnits(2, "write3", "write3-slowfsm", "write3-pipe", "crash3", "crash3-slowfsm", "transfer", "transfer-slowfsm", "transfer-pipe", "majority-restart", "fig8")
+			return cat(scUnits(2, "write3", "write3-slowfsm", "write3-pipe", "crash3", "crash3-slowfsm", "transfer", "transfer-slowfsm", "transfer-pipe", "majority-restart", "fig8"), scUnits(3, "apply-fine1", "apply-fine1-batching"))
 		})
 	clusterCheck("C10",
 		func() []Unit {
